@@ -1,5 +1,6 @@
 (** C06 proofs, part 4: the property theorems about the model (stated in Properties/C06.v). *)
-From Wharf Require Import Base.Prelude FS.Tree FS.TreeProofs FS.Ops FS.OpsProofs
+From Coq Require Import Arith Lia.
+From Wharf Require Import FS.Light FS.Tree FS.TreeProofs FS.Ops FS.OpsProofs
      Heal.Validator Heal.Healer Heal.HealLemmas Heal.HealProofs Heal.HealMeasure.
 
 (** ---------- restored => fail-fast validation passes ---------- *)
